@@ -12,12 +12,14 @@ Open Scope N_scope.
 Definition sub_chars (s : str) : str :=
   flat_map (fun c => if in_ranges gen_keep c then [c] else gen_repl) s.
 
-(* if sanitized and sanitized[0].isdigit(): sanitized = f"_{sanitized}" *)
-Definition guard_digit (t : str) : str :=
+(* if sanitized and (sanitized[0].isdigit() [or sanitized.lower().startswith("sqlite")]): sanitized = f"_{sanitized}" *)
+Definition needs_guard (t : str) : bool :=
   match t with
-  | c :: _ => if gen_digit_guard && is_digit c then gen_digit_prefix ++ t else t
-  | [] => t
+  | c :: _ => (gen_digit_guard && is_digit c) || (gen_reserved_guard && starts_with_nocase gen_reserved_word t)
+  | [] => false
   end.
+
+Definition guard_digit (t : str) : str := if needs_guard t then gen_digit_prefix ++ t else t.
 
 (* sanitized = sanitized or "_default" *)
 Definition or_default (t : str) : str := match t with [] => gen_default | _ => t end.
